@@ -50,10 +50,20 @@ func evalC03(op string, args []string) string {
 		}
 		return "ok " + hx(w)
 	case "authresp":
+		if len(args) == 4 {
+			radius.IsAuthenticResponse(unhx(args[0]), unhx(args[2]), unhx(args[3]))
+			args = args[1:]
+		}
 		a0, a1, a2 := unhx(args[0]), unhx(args[1]), unhx(args[2])
 		priorVariants([][]byte{a0, a1, a2}, func(v [][]byte) { radius.IsAuthenticResponse(v[0], v[1], v[2]) })
 		return boolStr(radius.IsAuthenticResponse(a0, a1, a2))
 	case "authreq":
+		if len(args) == 3 {
+			// a first call on another datagram (the authentic original of the one observed): what the predicate has
+			// seen and accepted before is no reason to accept what it is shown now
+			radius.IsAuthenticRequest(unhx(args[0]), unhx(args[2]))
+			args = args[1:]
+		}
 		a0, a1 := unhx(args[0]), unhx(args[1])
 		priorVariants([][]byte{a0, a1}, func(v [][]byte) { radius.IsAuthenticRequest(v[0], v[1]) })
 		return boolStr(radius.IsAuthenticRequest(a0, a1))
@@ -116,11 +126,14 @@ func evalC03(op string, args []string) string {
 		// New must draw every packet's identifier+authenticator from crypto/rand.Reader, never twice:
 		// the Reader is replaced by a recorded deterministic stream (optionally failing at one Read);
 		// each packet's 17 octets are located in the stream.
-		n, failAt := atoi(args[0]), atoi(args[1])
-		if n < 1 || n > 400 {
+		// (second argument "<k>p": the source fails at its k-th Read and at every Read after it)
+		permanent := strings.HasSuffix(args[1], "p")
+		n, failAt := atoi(args[0]), atoi(strings.TrimSuffix(args[1], "p"))
+		if n < 1 || n > 400 || (permanent && failAt < 1) {
 			return "BAD-CASE"
 		}
 		st := &scriptedReader{g: NewGen(uint64(n*1000 + failAt + 7)), failAt: failAt}
+		st.permanent = permanent
 		if failAt < 0 {
 			// failAt = -k: the source never fails but delivers at most k octets per Read (an io.Reader may return
 			// fewer octets than asked, without an error): what was not delivered must be asked for again
@@ -160,11 +173,13 @@ type scriptedReader struct {
 	reads  int
 	failAt int
 	chunk  int
+	// permanent: every Read from the failAt-th on fails (a source that is gone for good, not a hiccup)
+	permanent bool
 }
 
 func (r *scriptedReader) Read(p []byte) (int, error) {
 	r.reads++
-	if r.reads == r.failAt {
+	if r.reads == r.failAt || (r.permanent && r.reads > r.failAt) {
 		return 0, errors.New("entropy source failed")
 	}
 	if r.chunk > 0 && len(p) > r.chunk {
@@ -297,7 +312,12 @@ func genC03(g *Gen, tier string, emit func(op string, args ...string)) {
 				emit("authresp", hxIn(w), hxIn(rw), hxIn(sec))
 				continue
 			}
+			origW := append([]byte{}, w...)
+			origRw := append([]byte{}, rw...)
 			w, rw = g.damage(w), g.damage(rw)
+			if g.Bool() && bytes.Equal(origRw, rw) && !bytes.Equal(origW, w) {
+				emit("authresp", hxIn(origW), hxIn(w), hxIn(rw), hxIn(sec))
+			}
 			if g.Chance(1, 5) {
 				sec = g.secret()
 			}
@@ -321,7 +341,20 @@ func genC03(g *Gen, tier string, emit func(op string, args ...string)) {
 				// make it a hashed-zero request by hand with another code byte
 				rw[0] = byte(g.Pick(4, 40, 43, 1, 12, 5))
 			}
+			orig := append([]byte{}, rw...)
 			rw = g.damage(rw)
+			// (every second damaged datagram is shown right after its undamaged original, in one process)
+			if g.Bool() && !bytes.Equal(orig, rw) {
+				emit("authreq", hxIn(orig), hxIn(rw), hxIn(sec))
+				// the classic: same 20-octet header, something behind it flipped, cut or appended
+				if len(orig) > 21 {
+					t := append([]byte{}, orig...)
+					t[20+g.Intn(len(t)-20)] ^= byte(1 + g.Intn(255))
+					emit("authreq", hxIn(orig), hxIn(t), hxIn(sec))
+					emit("authreq", hxIn(orig), hxIn(orig[:len(orig)-1]), hxIn(sec))
+				}
+				emit("authreq", hxIn(orig), hxIn(append(append([]byte{}, orig...), 0)), hxIn(sec))
+			}
 			if g.Chance(1, 6) {
 				sec = g.secret()
 			}
@@ -333,6 +366,10 @@ func genC03(g *Gen, tier string, emit func(op string, args ...string)) {
 	// New against a scripted entropy stream, with and without a failing Read
 	for _, nf := range [][2]int{{40, 0}, {200, 0}, {150, 1}, {150, 2}, {150, 3}, {200, 65}, {200, 66}, {300, 129}, {10, 5}, {60, -1}, {60, -5}, {60, -16}, {60, -17}} {
 		emit("newstream", itoa(nf[0]), itoa(nf[1]))
+	}
+	// … and against a source that fails for good: there is no other source to fall back on
+	for _, nf := range [][2]int{{12, 1}, {20, 5}, {40, 17}, {40, 18}} {
+		emit("newstream", itoa(nf[0]), itoa(nf[1])+"p")
 	}
 	// long secrets and datagrams near the size limit (the hash must cover all of both)
 	for _, rl := range []int{20, 300, 4000, 4090, 4096} {
